@@ -13,10 +13,15 @@
 package main
 
 import (
+	"bufio"
+	"bytes"
 	"context"
 	"encoding/json"
+	"flag"
 	"fmt"
+	"io"
 	"os"
+	"os/exec"
 	"path/filepath"
 	"regexp"
 	"runtime/pprof"
@@ -29,6 +34,8 @@ import (
 	"github.com/AliceO2Group/Control/core/integration"
 	pb "github.com/AliceO2Group/Control/core/protos"
 	"github.com/AliceO2Group/Control/core/task/channel"
+
+	"github.com/sirupsen/logrus"
 
 	"verif/harness/internal/gen"
 	"verif/harness/internal/simcore"
@@ -674,8 +681,8 @@ func (w *world) runEnvOnce(in envInput) (gen.Case, bool) {
 	s := w.s
 	// watchdog: a case normally takes milliseconds (a few seconds when the deployment wait
 	// times out); if the core gets stuck, say where and give up instead of hanging the check
-	wd := time.AfterFunc(60*time.Second, func() {
-		fmt.Fprintf(os.Stderr, "h13: environment %d did not finish within 60 s; goroutine dump follows\n", w.seq)
+	wd := time.AfterFunc(25*time.Second, func() {
+		fmt.Fprintf(os.Stderr, "h13: environment %d did not finish within 25 s; goroutine dump follows\n", w.seq)
 		_ = pprof.Lookup("goroutine").WriteTo(os.Stderr, 1)
 		os.Exit(3)
 	})
@@ -691,7 +698,7 @@ func (w *world) runEnvOnce(in envInput) (gen.Case, bool) {
 	}
 	wfName := in.Root.Name
 	var b strings.Builder
-	b.WriteString("name: " + wfName + "\ndefaults:\n  deploy_timeout: 3s\n")
+	b.WriteString("name: " + wfName + "\ndefaults:\n  deploy_timeout: 1500ms\n")
 	emitIn(&b, "", in.Root.Bind)
 	emitOut(&b, "", in.Root.Connect)
 	b.WriteString("roles:\n")
@@ -947,6 +954,9 @@ func genEnv(r *gen.Rand) envInput {
 		if aggr && (clean || r.Chance(2, 3)) {
 			c.Global = "" // an alias declared above several tasks is a conflict; keep it rare
 		}
+		if c.Target != "" && r.Chance(3, 4) {
+			c.Target = "" // inbound channels with a target of their own (findings C13-a/b): a minority
+		}
 		if c.Global != "" && clean {
 			aliasSeq++
 			c.Global = fmt.Sprintf("u-%d", aliasSeq)
@@ -1125,25 +1135,173 @@ func corpus() []envInput {
 	}
 }
 
-func main() {
-	o := gen.ParseFlags()
-	var cases []gen.Case
-	var w *world
-	getWorld := func() *world {
-		if w == nil {
-			build := os.Getenv("VERIF_BUILD")
-			if build == "" {
-				build = "/verif/build"
+// ---------------------------------------------------------------- process isolation
+//
+// The environments are created by a child process (`h13 -child`): it reads one envInput per
+// line on stdin and answers one childOut per line on stdout.  The core under test has races of
+// its own that have nothing to do with channels (a nil dereference in updateTaskState when a
+// late state update meets a release, creation or teardown waiting for ever); when the child
+// dies or stops answering, the parent starts a new one and continues with the same input.  An
+// input that kills the child three times in a row is reported as an error of the run.
+
+type childOut struct {
+	Term      string          `json:"term"`
+	Kind      string          `json:"kind"`
+	Input     json.RawMessage `json:"input"`
+	Obs       json.RawMessage `json:"obs"`
+	Seq       int             `json:"seq"`
+	Retries   int             `json:"retries"`
+	Reoffers  int             `json:"reoffers"`
+	Abandoned int             `json:"abandoned"`
+}
+
+func childMain() {
+	build := os.Getenv("VERIF_BUILD")
+	if build == "" {
+		build = "/verif/build"
+	}
+	w, err := newWorld(filepath.Join(build, "sim", "C13"))
+	if err != nil {
+		fmt.Fprintln(os.Stderr, "simcore:", err)
+		os.Exit(3)
+	}
+	in := bufio.NewReaderSize(os.Stdin, 1<<20)
+	out := bufio.NewWriter(os.Stdout)
+	for {
+		line, err := in.ReadBytes('\n')
+		if len(bytes.TrimSpace(line)) > 0 {
+			var ei envInput
+			if e := json.Unmarshal(line, &ei); e != nil {
+				fmt.Fprintln(os.Stderr, "h13 child: bad input:", e)
+				os.Exit(3)
 			}
-			var err error
-			w, err = newWorld(filepath.Join(build, "sim", "C13"))
-			if err != nil {
-				fmt.Fprintln(os.Stderr, "simcore:", err)
+			c := w.runEnv(ei)
+			ij, _ := json.Marshal(c.Input)
+			oj, _ := json.Marshal(c.Obs)
+			b, _ := json.Marshal(childOut{Term: c.Term, Kind: c.Kind, Input: ij, Obs: oj, Seq: w.seq,
+				Retries: w.retries, Reoffers: w.reoffers, Abandoned: w.abandoned})
+			out.Write(b)
+			out.WriteByte('\n')
+			out.Flush()
+		}
+		if err != nil {
+			return
+		}
+	}
+}
+
+type runStats struct{ envs, retries, reoffers, abandoned, restarts int }
+
+// runEnvs runs the inputs in order through child processes.
+func runEnvs(inputs []envInput, st *runStats) []gen.Case {
+	res := make([]gen.Case, 0, len(inputs))
+	fails := 0
+	for len(res) < len(inputs) {
+		start := len(res)
+		cmd := exec.Command(os.Args[0], "-child", "-out", os.TempDir())
+		cmd.Stderr = os.Stderr
+		stdin, err := cmd.StdinPipe()
+		if err != nil {
+			panic(err)
+		}
+		stdout, err := cmd.StdoutPipe()
+		if err != nil {
+			panic(err)
+		}
+		if err := cmd.Start(); err != nil {
+			panic(err)
+		}
+		go func() {
+			for _, in := range inputs[start:] {
+				b, _ := json.Marshal(in)
+				if _, err := stdin.Write(append(b, '\n')); err != nil {
+					return
+				}
+			}
+			stdin.Close()
+		}()
+		lines := make(chan []byte)
+		go func() {
+			rd := bufio.NewReaderSize(stdout, 1<<20)
+			for {
+				l, err := rd.ReadBytes('\n')
+				if len(bytes.TrimSpace(l)) > 0 {
+					lines <- l
+				}
+				if err != nil {
+					close(lines)
+					return
+				}
+			}
+		}()
+		var last childOut
+	read:
+		for len(res) < len(inputs) {
+			select {
+			case l, ok := <-lines:
+				if !ok {
+					break read
+				}
+				if !bytes.HasPrefix(l, []byte(`{"term":`)) {
+					continue // something else printed on stdout by the core
+				}
+				var co childOut
+				if err := json.Unmarshal(l, &co); err != nil {
+					fmt.Fprintln(os.Stderr, "h13: unreadable answer of the child:", err)
+					break read
+				}
+				var in, ob interface{}
+				_ = json.Unmarshal(co.Input, &in)
+				_ = json.Unmarshal(co.Obs, &ob)
+				res = append(res, gen.Case{Term: co.Term, Kind: co.Kind, Input: in, Obs: ob})
+				last = co
+				fails = 0
+			case <-time.After(60 * time.Second):
+				fmt.Fprintf(os.Stderr, "h13: no answer for environment input %d within 60 s\n", len(res))
+				break read
+			}
+		}
+		_ = cmd.Process.Kill()
+		go func() {
+			for range lines {
+			}
+		}()
+		_ = cmd.Wait()
+		st.envs += last.Seq
+		st.retries += last.Retries
+		st.reoffers += last.Reoffers
+		st.abandoned += last.Abandoned
+		if len(res) < len(inputs) {
+			st.restarts++
+			fails++
+			fmt.Fprintf(os.Stderr, "h13: the core process ended while creating environment input %d (attempt %d); restarting it\n", len(res), fails)
+			if fails >= 3 {
+				b, _ := json.Marshal(inputs[len(res)])
+				fmt.Fprintf(os.Stderr, "h13: environment input %d kills or blocks the core every time: %s\n", len(res), b)
 				os.Exit(3)
 			}
 		}
-		return w
 	}
+	return res
+}
+
+func main() {
+	child := flag.Bool("child", false, "internal: create the environments given on stdin")
+	o := gen.ParseFlags()
+	if *child {
+		childMain()
+		return
+	}
+	if os.Getenv("SIM_VERBOSE") == "" {
+		logrus.SetOutput(io.Discard) // warnings of core/task/channel about the generated declarations
+	}
+	// jobs in case order: a pure case is evaluated at once, an environment is a placeholder
+	type job struct {
+		pure *gen.Case
+		env  *envInput
+	}
+	var jobs []job
+	addEnv := func(in envInput) { jobs = append(jobs, job{env: &in}) }
 	if o.Replay != "" {
 		ins, kinds, err := gen.LoadReplay(o.Replay)
 		if err != nil {
@@ -1157,7 +1315,7 @@ func main() {
 				if err := json.Unmarshal(raw, &in); err != nil {
 					panic(err)
 				}
-				cases = append(cases, getWorld().runEnv(in.Env))
+				addEnv(in.Env)
 				continue
 			}
 			var in pureInput
@@ -1165,30 +1323,54 @@ func main() {
 				panic(err)
 			}
 			if c, ok := replayPure(in, kinds[i]); ok {
-				cases = append(cases, c)
+				jobs = append(jobs, job{pure: &c})
 			}
 		}
 	} else {
 		r := gen.NewRand(o.Seed)
 		rPure, rEnv := r.Fork(), r.Fork()
 		for _, in := range corpus() {
-			cases = append(cases, getWorld().runEnv(in))
+			addEnv(in)
 		}
 		nEnv := o.N / 5
 		nPure := o.N - nEnv
 		for i := 0; i < nPure; i++ {
-			cases = append(cases, genPure(rPure, i%5))
+			c := genPure(rPure, i%5)
+			jobs = append(jobs, job{pure: &c})
 		}
 		for i := 0; i < nEnv; i++ {
-			cases = append(cases, getWorld().runEnv(genEnv(rEnv)))
+			addEnv(genEnv(rEnv))
+		}
+	}
+	var envIns []envInput
+	for _, j := range jobs {
+		if j.env != nil {
+			envIns = append(envIns, *j.env)
+		}
+	}
+	var st runStats
+	var envCases []gen.Case
+	if len(envIns) > 0 {
+		envCases = runEnvs(envIns, &st)
+	}
+	var cases []gen.Case
+	k := 0
+	for _, j := range jobs {
+		if j.pure != nil {
+			cases = append(cases, *j.pure)
+		} else {
+			cases = append(cases, envCases[k])
+			k++
 		}
 	}
 	extra := map[string]any{}
-	if w != nil {
-		extra["environments_created"] = w.seq
-		extra["deploy_retries"] = w.retries
-		extra["offer_rounds_repeated"] = w.reoffers
-		extra["teardowns_abandoned"] = w.abandoned
+	if len(envIns) > 0 {
+		extra["environment_inputs"] = len(envIns)
+		extra["environments_created"] = st.envs
+		extra["deploy_retries"] = st.retries
+		extra["offer_rounds_repeated"] = st.reoffers
+		extra["teardowns_abandoned"] = st.abandoned
+		extra["core_process_restarts"] = st.restarts
 	}
 	if err := gen.WriteCases(o, "C13", "From Verif Require Import Channels.", "c13_case", "report13", cases, extra); err != nil {
 		panic(err)
